@@ -269,7 +269,8 @@ class ResourcesAdapter:
             if kids is not None:
                 ids = self._ids()
                 obs['detached'] = tuple(sorted((ids.get(id(c), '?'), ids.get(id(getattr(c, 'parent', None)), '?'),
-                                                'none' if getattr(c, 'key', None) is None else str(c.key)) for c in kids))
+                                                'none' if getattr(c, 'key', None) is None
+                                                else env.abstract.get(c.key, '?' + str(c.key))) for c in kids))
         self._observe(obs)
         return obs
 
@@ -504,7 +505,9 @@ class ResourcesAdapter:
             exp['empty_after_clear'] = True
             before = self._expect_state(pre)
             kids = set(before['_maps'][args[0]].values()) | set(before['_vis'][args[0]].values())
-            exp['detached'] = tuple(sorted((c, 'none', 'none') for c in kids))
+            # detached — except a child that was moved elsewhere meanwhile: it keeps recording its new place
+            parent, key = fmap(post['parent']), fmap(post['key'])
+            exp['detached'] = tuple(sorted((c, parent[c], key[c]) for c in kids))
         return exp
 
 
